@@ -51,6 +51,8 @@ def _gen_goal(tape, ctx, flavour, strategy, mode):
     kinds = [(3, "min"), (3, "max"), (1, "minmax"), (1, "maxmin")]
     if mode in ("single", "boxed"):
         kinds.append((2, "maxsmt"))
+    elif tape.chance(1, 10, "unsupported.maxsmt"):
+        kinds = [(1, "maxsmt")]       # MaxSMT goals are not supported by lexicographic / Pareto: must be refused
     k = tape.weighted(kinds, "goal.kind")
     if k == "maxsmt":
         n = tape.rint(1, 4, "maxsmt.n")
@@ -431,10 +433,23 @@ def execute(plan, tape):
         elif k == "optimize":
             goals = o["goals"]
             mode, strategy = o["mode"], o["strategy"]
-            if mode in ("lex", "pareto"):
-                goals = [g for g in goals if g["kind"] != "maxsmt"]
-                if not goals:
-                    continue
+            if mode in ("lex", "pareto") and any(g["kind"] == "maxsmt" for g in goals):
+                # documented: refused with GoalNotSupportedError - and the solver is left as it was
+                from pysmt.exceptions import GoalNotSupportedError
+                pg = [_build_goal(dict(g, real_w=False, soft=[[c_, (w_ if not isinstance(w_, list) else w_[0])] for c_, w_ in g["soft"]])
+                                  if g["kind"] == "maxsmt" else g, env) for g in goals]
+                try:
+                    if mode == "lex":
+                        api("lexicographic_optimize(maxsmt)", solver.lexicographic_optimize, pg, strategy=strategy,
+                            allowed=(GoalNotSupportedError,))
+                    else:
+                        api("pareto_optimize(maxsmt)", lambda: list(solver.pareto_optimize(pg)),
+                            allowed=(GoalNotSupportedError,))
+                    raise Violation("C18:unsupported-goal-accepted", "%s optimisation accepted a MaxSMT goal" % mode)
+                except GoalNotSupportedError:
+                    probe("maxsmt_refused_by_" + mode)
+                observe("refused %s optimisation" % mode)
+                continue
             if strategy == "binary":
                 goals = [dict(g, real_w=False, soft=[[c, (w if not isinstance(w, list) else w[0])] for c, w in g["soft"]])
                          if g["kind"] == "maxsmt" else g for g in goals]
